@@ -8,21 +8,23 @@ from ..graphmodel import core, ops as O
 
 UNIVERSES = {
     #  name: (ids, n_wbs, names, links_only, ctor)
-    'U2': ((1, 2), 1, ('b', 'a'), False, False),
-    'U3': ((1, 2, 3), 1, ('b', 'a', 'b'), False, False),
-    'U3d': ((1, 2, 1), 2, ('b', 'a', 'c'), False, False),
-    'U4': ((1, 2, 3, 4), 1, ('b', 'a', 'b', 'a'), False, False),
-    'U4d': ((1, 2, 1, 2), 2, ('b', 'a', 'c', 'a'), False, False),
-    'U4l': ((2, 1, 3, 1), 0, ('b', 'a', 'b', 'a'), True, False),
-    'U3c': ((1, 2, 1), 1, ('b', 'a', 'c'), False, True),
-    'U3x': ((1, 2, 3, 4), 2, ('b', 'a', 'b', 'e'), False, False),
-    'U3xd': ((1, 2, 3, 1), 2, ('b', 'a', 'b', 'e'), False, False),
-    'U2x': ((1, 2, 4), 2, ('b', 'a', 'e'), False, False),
-    'U3dq': ((1, 2, 1), 2, ('b', 'a', 'c'), False, False),
+    'U2': ((0, 1), 1, ('b', 'a'), False, False),
+    # ids: a falsy one, and two that print alike but are different values (1 and '1')
+    'U3': ((0, 1, '1'), 1, ('b', 'a', 'b'), False, False),
+    'U3d': ((0, 2, 0), 2, ('b', 'a', 'c'), False, False),
+    'U4': ((0, 1, 2, 3), 1, ('b', 'a', 'b', 'a'), False, False),
+    'U4d': ((0, 2, 0, 2), 2, ('b', 'a', 'c', 'a'), False, False),
+    'U4l': ((2, 0, 3, 0), 0, ('b', 'a', 'b', 'a'), True, False),
+    'U3c': ((0, 2, 0), 1, ('b', 'a', 'c'), False, True),
+    'U3x': ((0, 1, '1', 4), 2, ('b', 'a', 'b', 'e'), False, False),
+    'U3xd': ((0, 1, 2, 0), 2, ('b', 'a', 'b', 'e'), False, False),
+    'U2x': ((0, 1, 4), 2, ('b', 'a', 'e'), False, False),
+    'U3dq': ((0, 2, 0), 2, ('b', 'a', 'c'), False, False),
     # two-phase universes: structure alphabet to closure, then the attach/full alphabet one step from every state
-    'U4e': ((1, 2, 3, 3), 1, ('b', 'a', 'b', 'c'), False, False),
+    'U4e': ((1, 2, 0, 0), 1, ('b', 'a', 'b', 'c'), False, False),
     'U4s': ((1, 2, 3, 4), 2, ('b', 'a', 'b', 'a'), False, False),
-    'U4o': ((1, 2, 3, 4), 1, ('b', 'a', 'b', 'a'), False, False),
+    'U4o': ((0, 1, 2, 3), 1, ('b', 'a', 'b', 'a'), False, False),
+    'U5': ((0, 1, 2, 3, 4), 1, ('b', 'a', 'b', 'a', 'c'), False, False),
 }
 
 ATTACH_FAMILIES = {'parent', 'list=', 'list+=', '//', '//1', 'append', 'list.parent=', 'W.tasks.parent=', 'Task()', 'list=view', 'list+=view'}
@@ -335,6 +337,59 @@ def _held_chunk(chunk):
     return acc
 
 
+def seeded_states(uname, deep_only=True, in_wbs=(True,), max_links=1):
+    """States of a 5-task universe built directly through the public API instead of by search: every ordered forest shape
+    (deep_only: with at least three levels), all tasks inside W0 or all detached, and every placement of <= max_links
+    dependency links. They serve as start states for one step of the rich alphabet (the closure of 5 tasks is out of reach)."""
+    from ..sched import layers as LY
+    U = make_universe(uname)
+    out = {}
+    for par in LY.forests(U.n):
+        depth = max(len(LY.ancestors(par, i)) for i in range(U.n))
+        if deep_only and depth < 2:
+            continue
+        for inw in in_wbs:
+            for links in LY.link_sets(par, max_links):
+                U.restore(U.init_enc)
+                hist = []
+                try:
+                    for i in range(U.n):
+                        if par[i] is None:
+                            if inw:
+                                op = ('append', ('W', 0), i)
+                            else:
+                                continue
+                        else:
+                            op = ('append', ('T', par[i]), i)
+                        O.apply(U, op)
+                        hist.append(op)
+                    for p_, s_ in links:
+                        op = ('pred.append', s_, p_)
+                        O.apply(U, op)
+                        hist.append(op)
+                except RuntimeError:
+                    continue
+                out[U.encode()] = tuple(hist)
+    return out
+
+
+def from_states(uname, states, alphabet, acc):
+    """One step of `alphabet` from each given state, with all transition oracles (successors are not expanded)."""
+    global _U, _OPS, _SEEN, _CFG
+    U = make_universe(uname)
+    saved = U.alphabet
+    U.alphabet = alphabet
+    _OPS = O.alphabet(U)
+    U.alphabet = saved
+    _U, _CFG = U, {'reclimit': 400, 'max_links': None}
+    _SEEN = set(states)
+    t0 = acc.counters['transitions']
+    for r in runtime.pmap(_expand_chunk, runtime.split(list(states.items()), runtime.n_workers() * 4)):
+        r.extra.pop('new')
+        acc.merge(r)
+    return acc.counters['transitions'] - t0
+
+
 def held_facades(uname, states, acc, quick=True):
     """Run the held-facade transitions from the given states (dict enc -> history) of universe uname."""
     global _U, _OPS, _CFG
@@ -409,6 +464,14 @@ def explore(uname, acc, max_depth=None, state_cap=250000, time_cap=None, collect
         _SEEN = set(seen) | dead
         t1 = acc.counters['transitions']
         items = list(seen.items())
+        if phase2 == 'order':
+            # ordering operations on lists of one or two elements are covered by the 3-task universes: keep the states
+            # in which some children/root list has at least three entries
+            def long_list(enc):
+                U.restore(enc)
+                o = U.observe()
+                return any(len(t[1]) >= 3 for t in o[0]) or any(len(r) >= 3 for r in o[1])
+            items = [(k, h) for k, h in items if long_list(k)]
         for r in runtime.pmap(_expand_chunk, runtime.split(items, runtime.n_workers() * 4)):
             n_new = len(r.extra.pop('new'))
             acc.merge(r)
